@@ -14,7 +14,7 @@ TRUSTED = [
     "Coq 8.16.1 kernel (coqc, vm_compute); no axioms: every theorem is 'Closed under the global context'",
     "translator vplib/translate/gen_sites.py (regex/brace scanners over every library source file; counts per (file, kind) and text pins of the modelled functions; fail closed) and the recorded baseline coq/Model/SitesBaseline.v",
     "Model/Checked.v restates Rust's debug-build semantics of + - * neg on i64/usize/u16, checked_*/saturating_*/unsigned_abs, slicing, unwrap, assert!; Model/RangeArith.v and Model/Span.v restate range_of_ranges, the LIMIT/OFFSET lines, IdGenerator::skip/gen/load, the constant folding of std.neg, the window frame bounds, convert_lexer_error, composed by hand; they are run against the implementation on every run (take_sql, id_load, frame_bounds, static_neg: streams corr-*)",
-    "Model/WidthArith.v (consume_width, reset_line, the widening loop of write_or_expand) and Model/ReviewedSites.v (guards of the sites added since the last baseline) restate private code that no entry point exposes: they are tied by the text pins of Gen/GenSites.v and by the probes (long tokens, depth 32800), not by an input/output comparison",
+    "Model/WidthArith.v (consume_width, reset_line, the widening loop of write_or_expand) and Model/ReviewedSites.v (guards of the sites added since the last baseline) restate private code that no entry point exposes: they are tied by the text pins of Gen/GenSites.v and by the probes (long tokens), not by an input/output comparison",
     "the harness: every entry point under catch_unwind in a thread with a fixed stack; process aborts and hangs observed by the parent with a wall-clock cap (harness/src/main.rs cmd_probe, vplib/props/c12_run.py)",
     "RUNTIME FACTS NOT PROVED: stack depth, wall-clock time (the polynomial bound of the parser and of the formatter after e945e0b / c8b3817 is MEASURED: directed depths 30..1000 under the cap, growth at n, 2n, 4n), allocation failure; chumsky, serde_json, sqlparser, sqlformat internals; that the formatter's layout succeeds at the unlimited width (hypothesis of c12_write_or_expand_terminates); the ~440 unwrap/expect/index sites outside the modelled functions are counted against a baseline, not proved unreachable",
 ]
@@ -64,22 +64,18 @@ def bracket_depth(src):
 
 
 # input predicates of the OPEN findings only (the predicates of fixed findings were removed with the fix: nothing can
-# be classified as F7 F15 F29 N1 N2 N5 N6 N7 N8 N9 N10 N11 H1 H2 any more)
+# be classified as F7 F15 F29 N1 N2 N5 N6 N7 N8 N9 N10 N11 N12 N13 H1 H2 any more)
 PRED = {
     "non-ascii-source": lambda c: any(ord(ch) > 127 for ch in c["src"]),
     "mutated-rq-json": lambda c: c["entry"] == "json_rq" and c.get("family", "").startswith("json:") and c.get("family") not in ("json:orig", "json:int:lit"),
     "mutated-pl-json": lambda c: c["entry"] == "json_pl" and c.get("family", "").startswith("json:") and c.get("family") not in ("json:orig", "json:int:lit"),
     "deep-or-long": lambda c: True,   # refined by thresholds below
-    # c12_reset_line_panics_above / _partial: tab.len() * indent overflows u16 exactly from indent 32768 on
-    "indent-32768": lambda c: bracket_depth(c["src"]) >= 32768,
     # C12-H3: at least 10 named arguments whose value opens a parenthesis (`x:(`), nested
     "nested-named-args": lambda c: len(re.findall(r"[A-Za-z_][A-Za-z_0-9]*:\(", c["src"])) >= 10 and bracket_depth(c["src"]) >= 10,
     # C12-H4: at least 10 unclosed `(`, each behind an operator that also has a prefix form (+ - * == .. and the alias `=`)
     "unclosed-after-prefix-operator": lambda c: c["src"].count("(") - c["src"].count(")") >= 10 and len(re.findall(r"(?:\+|-|\*|==|(?<![=!<>~])=|\.\.|:)\s*\(", c["src"])) >= 10,
     # C12-N14: a lambda without parameters (`->` at the start of a pipeline stage / parenthesis / line, possibly after `func`)
     "parameterless-lambda": lambda c: re.search(r"(?:^|[|(\n=,{\[])\s*(?:func\s*)?->", c["src"]) is not None,
-    # C12-N13: a relation literal (array of tuples) with a row that is not a tuple
-    "relation-literal-row": lambda c: re.search(r"\[[^\]]*\{[^\]]*\}\s*,\s*[^{\s][^\]]*\]|\[\s*[^{\s\]][^\]]*,\s*\{", (c.get("prog") or "") + " " + c["src"], re.S) is not None,
 }
 
 
